@@ -1,4 +1,354 @@
-//! reader suites (filled in below)
-pub fn handle(_f: &[&str]) -> Option<String> {
-    None
+//! reader suite `rd <kind> <cap> <events> <calls>` and the ArrayBuf suites
+use crate::parse::{complete_str, event_str, file_str, perr_str};
+use crate::{err_str, hex, nonempty, unhex};
+use sml_rs::parser::complete::File;
+use sml_rs::parser::streaming::Parser;
+use sml_rs::transport::ReadDecodedError;
+use sml_rs::util::{ArrayBuf, Buffer, ByteSourceErr, ErrKind};
+use sml_rs::{DecodedBytes, ReadParsedError, SmlReader};
+use std::panic::{catch_unwind, AssertUnwindSafe};
+
+#[derive(Clone, Copy, Debug)]
+pub enum Sev {
+    Byte(u8),
+    WouldBlock,
+    Interrupted,
+    Other,
+    Zero,
+}
+
+pub fn sevs(s: &str) -> Vec<Sev> {
+    let mut v = Vec::new();
+    for tok in s.split(',') {
+        if tok.is_empty() {
+            continue;
+        }
+        match tok.as_bytes()[0] {
+            b'x' => v.extend(unhex(&tok[1..]).into_iter().map(Sev::Byte)),
+            b'W' => v.push(Sev::WouldBlock),
+            b'I' => v.push(Sev::Interrupted),
+            b'O' => v.push(Sev::Other),
+            b'Z' => v.push(Sev::Zero),
+            _ => panic!("bad source event"),
+        }
+    }
+    v
+}
+
+/// std::io::Read that plays back the events; after the last one it returns Ok(0) forever
+pub struct IoMock {
+    evs: Vec<Sev>,
+    pos: usize,
+}
+impl std::io::Read for IoMock {
+    fn read(&mut self, buf: &mut [u8]) -> std::io::Result<usize> {
+        use std::io::{Error, ErrorKind};
+        if buf.is_empty() {
+            return Ok(0);
+        }
+        if self.pos >= self.evs.len() {
+            return Ok(0);
+        }
+        let e = self.evs[self.pos];
+        self.pos += 1;
+        match e {
+            Sev::Byte(b) => {
+                buf[0] = b;
+                Ok(1)
+            }
+            Sev::WouldBlock => Err(Error::new(ErrorKind::WouldBlock, "wb")),
+            Sev::Interrupted => Err(Error::new(ErrorKind::Interrupted, "int")),
+            Sev::Other => Err(Error::new(ErrorKind::PermissionDenied, "other")),
+            Sev::Zero => Ok(0),
+        }
+    }
+}
+
+/// embedded_hal 0.2 serial reader; after the last event it would block forever
+pub struct EhMock {
+    evs: Vec<Sev>,
+    pos: usize,
+}
+impl embedded_hal_02::serial::Read<u8> for EhMock {
+    type Error = ();
+    fn read(&mut self) -> nb::Result<u8, ()> {
+        if self.pos >= self.evs.len() {
+            return Err(nb::Error::WouldBlock);
+        }
+        let e = self.evs[self.pos];
+        self.pos += 1;
+        match e {
+            Sev::Byte(b) => Ok(b),
+            Sev::WouldBlock => Err(nb::Error::WouldBlock),
+            _ => Err(nb::Error::Other(())),
+        }
+    }
+}
+
+fn ek<E: ByteSourceErr>(e: &E) -> &'static str {
+    match e.kind() {
+        ErrKind::Eof => "Eof",
+        ErrKind::WouldBlock => "WouldBlock",
+        ErrKind::Other => "Other",
+    }
+}
+
+fn rde_str<E: ByteSourceErr>(e: &ReadDecodedError<E>) -> String {
+    match e {
+        ReadDecodedError::DecodeErr(d) => format!("E{}", err_str(d)),
+        ReadDecodedError::IoErr(io, n) => format!("IO{}:{}", ek(io), n),
+    }
+}
+fn rpe_str<E: ByteSourceErr + core::fmt::Debug>(e: &ReadParsedError<E>) -> String {
+    match e {
+        ReadParsedError::ParseErr(p) => format!("PE{}", perr_str(p)),
+        ReadParsedError::DecodeErr(d) => format!("E{}", err_str(d)),
+        ReadParsedError::IoErr(io, n) => format!("IO{}:{}", ek(io), n),
+    }
+}
+
+fn drain(p: Parser, len: usize) -> String {
+    let mut p = p;
+    let mut items = Vec::new();
+    for _ in 0..len + 2 {
+        match p.next() {
+            None => break,
+            Some(Ok(e)) => items.push(event_str(&e)),
+            Some(Err(e)) => items.push(format!("err:{}", perr_str(&e))),
+        }
+    }
+    format!("V{{{}}}", nonempty(items.join(";")))
+}
+
+fn nbwrap<T, E>(r: nb::Result<T, E>, f: impl FnOnce(Result<T, E>) -> String) -> String {
+    match r {
+        Ok(x) => f(Ok(x)),
+        Err(nb::Error::WouldBlock) => "WB".to_string(),
+        Err(nb::Error::Other(e)) => f(Err(e)),
+    }
+}
+
+macro_rules! run_calls {
+    ($reader:expr, $calls:expr) => {{
+        let mut reader = $reader;
+        let mut out: Vec<String> = Vec::new();
+        let cb = $calls.as_bytes();
+        for i in 0..cb.len() / 2 {
+            let (m, t) = (cb[2 * i], cb[2 * i + 1]);
+            let r = catch_unwind(AssertUnwindSafe(|| -> String {
+                let fb = |r: Result<DecodedBytes, _>| match r {
+                    Ok(b) => format!("M{}", hex(b)),
+                    Err(e) => rde_str(&e),
+                };
+                let ff = |r: Result<File, _>| match r {
+                    Ok(f) => format!("F{{{}}}", file_str(&f)),
+                    Err(e) => rpe_str(&e),
+                };
+                // the parser borrows the reader's buffer: drain it right away
+                let fp = |r: Result<Parser, _>, n: usize| match r {
+                    Ok(p) => drain(p, n),
+                    Err(e) => rde_str(&e),
+                };
+                match (m, t) {
+                    (b'r', b'b') => fb(reader.read::<DecodedBytes>()),
+                    (b'r', b'f') => ff(reader.read::<File>()),
+                    (b'r', b'p') => fp(reader.read::<Parser>(), 70000),
+                    (b'n', b'b') => match reader.next::<DecodedBytes>() {
+                        None => "-".to_string(),
+                        Some(r) => fb(r),
+                    },
+                    (b'n', b'f') => match reader.next::<File>() {
+                        None => "-".to_string(),
+                        Some(r) => ff(r),
+                    },
+                    (b'n', b'p') => match reader.next::<Parser>() {
+                        None => "-".to_string(),
+                        Some(r) => fp(r, 70000),
+                    },
+                    (b'R', b'b') => nbwrap(reader.read_nb::<DecodedBytes>(), fb),
+                    (b'R', b'f') => nbwrap(reader.read_nb::<File>(), ff),
+                    (b'R', b'p') => nbwrap(reader.read_nb::<Parser>(), |r| fp(r, 70000)),
+                    (b'N', b'b') => match reader.next_nb::<DecodedBytes>() {
+                        Ok(None) => "-".to_string(),
+                        Ok(Some(b)) => fb(Ok(b)),
+                        Err(nb::Error::WouldBlock) => "WB".to_string(),
+                        Err(nb::Error::Other(e)) => fb(Err(e)),
+                    },
+                    (b'N', b'f') => match reader.next_nb::<File>() {
+                        Ok(None) => "-".to_string(),
+                        Ok(Some(b)) => ff(Ok(b)),
+                        Err(nb::Error::WouldBlock) => "WB".to_string(),
+                        Err(nb::Error::Other(e)) => ff(Err(e)),
+                    },
+                    (b'N', b'p') => match reader.next_nb::<Parser>() {
+                        Ok(None) => "-".to_string(),
+                        Ok(Some(b)) => fp(Ok(b), 70000),
+                        Err(nb::Error::WouldBlock) => "WB".to_string(),
+                        Err(nb::Error::Other(e)) => fp(Err(e), 70000),
+                    },
+                    _ => panic!("bad call"),
+                }
+            }));
+            match r {
+                Ok(s) => out.push(s),
+                Err(_) => {
+                    out.push("P".to_string());
+                    break;
+                }
+            }
+        }
+        nonempty(out.join(";"))
+    }};
+}
+
+// SmlReaderBuilder<Buf> can only be obtained for ArrayBuf<N> and Vec<u8>: dispatch by hand
+pub trait Mk: Buffer {
+    fn builder() -> sml_rs::SmlReaderBuilder<Self>;
+}
+impl<const N: usize> Mk for ArrayBuf<N> {
+    fn builder() -> sml_rs::SmlReaderBuilder<Self> {
+        SmlReader::with_static_buffer::<N>()
+    }
+}
+impl Mk for Vec<u8> {
+    fn builder() -> sml_rs::SmlReaderBuilder<Self> {
+        SmlReader::with_vec_buffer()
+    }
+}
+
+fn run_rd2<B: Mk>(kind: &str, evs: &str, calls: &str) -> String {
+    let ev = sevs(evs);
+    let bytes: Vec<u8> = ev.iter().filter_map(|e| if let Sev::Byte(b) = e { Some(*b) } else { None }).collect();
+    match kind {
+        "slice" => run_calls!(B::builder().from_slice(&bytes), calls),
+        "iter" => run_calls!(B::builder().from_iterator(bytes.iter()), calls),
+        "io" => run_calls!(B::builder().from_reader(IoMock { evs: ev, pos: 0 }), calls),
+        "eh" => run_calls!(B::builder().from_eh_reader(EhMock { evs: ev, pos: 0 }), calls),
+        _ => panic!("bad source kind"),
+    }
+}
+
+/// the default 8 KiB buffer through the DummySmlReader constructors
+fn run_rd_default(kind: &str, evs: &str, calls: &str) -> String {
+    let ev = sevs(evs);
+    let bytes: Vec<u8> = ev.iter().filter_map(|e| if let Sev::Byte(b) = e { Some(*b) } else { None }).collect();
+    match kind {
+        "slice" => run_calls!(SmlReader::from_slice(&bytes), calls),
+        "iter" => run_calls!(SmlReader::from_iterator(bytes.clone().into_iter()), calls),
+        "io" => run_calls!(SmlReader::from_reader(IoMock { evs: ev, pos: 0 }), calls),
+        "eh" => run_calls!(SmlReader::from_eh_reader(EhMock { evs: ev, pos: 0 }), calls),
+        _ => panic!("bad source kind"),
+    }
+}
+
+// ---------------------------------------------------------------------------------------
+// ArrayBuf suites
+// ---------------------------------------------------------------------------------------
+fn apply_ops<const N: usize>(a: &mut ArrayBuf<N>, ops: &str, mut obs: impl FnMut(&str, &ArrayBuf<N>)) -> bool {
+    for tok in ops.split(',') {
+        if tok.is_empty() {
+            continue;
+        }
+        let arg = &tok[1..];
+        let r = catch_unwind(AssertUnwindSafe(|| match tok.as_bytes()[0] {
+            b'p' => {
+                if a.push(unhex(arg)[0]).is_ok() {
+                    "k"
+                } else {
+                    "o"
+                }
+            }
+            b'e' => {
+                if a.extend_from_slice(&unhex(arg)).is_ok() {
+                    "k"
+                } else {
+                    "o"
+                }
+            }
+            b't' => {
+                a.truncate(arg.parse().unwrap());
+                "k"
+            }
+            b'c' => {
+                a.clear();
+                "k"
+            }
+            _ => panic!("bad abuf op"),
+        }));
+        match r {
+            Ok(s) => obs(s, a),
+            Err(_) => {
+                obs("P", a);
+                return false;
+            }
+        }
+    }
+    true
+}
+
+fn run_abuf<const N: usize>(ops: &str) -> String {
+    let mut a: ArrayBuf<N> = Default::default();
+    let mut out = Vec::new();
+    apply_ops(&mut a, ops, |r, a| {
+        let c = catch_unwind(AssertUnwindSafe(|| hex(a))).unwrap_or_else(|_| "P".to_string());
+        out.push(format!("{}:{}", r, c))
+    });
+    nonempty(out.join(";"))
+}
+
+fn run_abfrom<const N: usize>(h: &str) -> String {
+    let v = unhex(h);
+    match catch_unwind(|| v.iter().cloned().collect::<ArrayBuf<N>>()) {
+        Ok(a) => format!("ok:{}", hex(&a)),
+        Err(_) => "P".to_string(),
+    }
+}
+
+fn run_abeq<const N: usize>(o1: &str, o2: &str) -> String {
+    let mut a: ArrayBuf<N> = Default::default();
+    let mut b: ArrayBuf<N> = Default::default();
+    apply_ops(&mut a, o1, |_, _| {});
+    apply_ops(&mut b, o2, |_, _| {});
+    let r = catch_unwind(AssertUnwindSafe(|| {
+        let dbg_same = format!("{:?}", a) == format!("{:?}", &*a)
+            && format!("{:x?}", a) == format!("{:x?}", &*a)
+            && format!("{:#?}", b) == format!("{:#?}", &*b);
+        format!("eq:{}:{}:{}", (a == b) as u8, (*a == *b) as u8, dbg_same as u8)
+    }));
+    r.unwrap_or_else(|_| "P".to_string())
+}
+
+macro_rules! with_n {
+    ($n:expr, $f:ident, $args:tt) => {
+        with_n!(@go $n, $f, $args,
+            0 1 2 3 4 5 6 7 8 9 10 11 12 13 14 15 16 17 18 19 20 21 22 23 24 25 26 27 28 29 30 31 32
+            33 34 35 36 37 38 39 40 48 60 64 100 128 200 252 253 254 255 256 257 258 259 260 300 512
+            1000 1020 1021 1022 1023 1024 1025 1026 1027 1028 2048 4096 8188 8189 8190 8191 8192
+            8193 8194 8195 8196 16384 65536 70000)
+    };
+    (@go $n:expr, $f:ident, $args:tt, $($k:literal)*) => {
+        match $n.parse::<usize>().expect("capacity") {
+            $( $k => $f::<$k> $args, )*
+            other => panic!("capacity {} not in the harness menu", other),
+        }
+    };
+}
+
+pub fn handle(f: &[&str]) -> Option<String> {
+    match f {
+        ["rd", kind, cap, evs, calls] => Some(if *cap == "default" {
+            run_rd_default(kind, evs, calls)
+        } else {
+            crate::with_cap_small!(*cap, run_rd2, (kind, evs, calls))
+        }),
+        ["abuf", n, ops] => Some(with_n!(n, run_abuf, (ops))),
+        ["abfrom", n, h] => Some(with_n!(n, run_abfrom, (h))),
+        ["abeq", n, o1, o2] => Some(with_n!(n, run_abeq, (o1, o2))),
+        _ => None,
+    }
+}
+
+#[allow(dead_code)]
+fn _unused() {
+    let _ = complete_str;
 }
